@@ -249,7 +249,8 @@ func (c *shardedMapOf[V]) Walk(walkFn func(e EntryOf[V]) error) (int, error) {
 		for _, v := range c.hashedBuckets[i].data {
 			b.RUnlock()
 
-			err := walkFn(v)
+			// Passing a copy, entry can be updated (expired, served) concurrently with walkFn.
+			err := walkFn(TraitEntryOf[V]{K: v.K, V: v.V, E: atomic.LoadInt64(&v.E), C: atomic.LoadInt64(&v.C)})
 			if err != nil {
 				return n, err
 			}
